@@ -6,6 +6,7 @@ PROPS = {
         'design_ref': 'DESIGN.md section 6.1',
         'verus_units': [
             {'template': 'units/c04_int.rs.in', 'modes': [[]], 'canary': True},
+            {'template': 'units/c04_int_err.rs.in', 'modes': [[]], 'canary': True},
         ],
         'kani': [],
         'not_covered': [
